@@ -31,7 +31,7 @@ def main():
             checks = sys.argv[i + 1].split(",")
         if a == "--tier":
             tier = sys.argv[i + 1]
-    src = f"/tmp/mut/out/{prop}/{which}"
+    src = os.environ.get("SEED_SRC") or f"/tmp/mut/out/{prop}/{which}"
     sid = f"{prop}-{which}"
     dst = f"/verif/seeded/{sid}"
     meta_path = f"{dst}/meta.json"
@@ -72,7 +72,7 @@ def main():
         meta["needs_to_manifest"] = notes[:1500]
     print(sid, "confirmed" if meta.get("confirmed") else "NOT CONFIRMED", meta.get("tests_with_change"),
           meta.get("demo_exit_unchanged"), meta.get("demo_exit_with_change"))
-    if meta.get("confirmed"):
+    if meta.get("confirmed") and not os.environ.get("SEED_NO_DETECT"):
         st = sh(["git", "-C", "/repo", "status", "--short"]).stdout.strip()
         assert not st, f"/repo not clean: {st}"
         r = sh(["git", "-C", "/repo", "apply", f"{dst}/patch.diff"])
